@@ -1,8 +1,11 @@
 """C10 — Similarity and coupling estimates equal reference statistics.
 
 proof  : lean/Pyunicorn/Properties/C10.lean (lag bookkeeping, first-strict-|max| rule,
-         symmetrize_by_absmax, histogram index walks, mirrored MI matrix, signed-square
-         Pearson: symmetry / bound / affine invariance / relabelling, ranks)
+         symmetrize_by_absmax, histogram index walks, mirrored / unmirrored MI matrices,
+         signed-square Pearson: symmetry / bound / affine invariance / relabelling, ranks and
+         their sum, quantile symbols, compiled == pure-Python windows, partial covariances of
+         the Gaussian estimators, normalised inverse; slice arithmetic regenerated from the
+         source by translate/gen_arith.py (arith_C10.json))
 tie    : exact correspondence of the Lean model with the compiled kernels at the kernel
          boundary on dyadic / small-integer inputs (rationals, integers, counts), and a
          tolerance correspondence (float32) with CouplingAnalysis.cross_correlation
@@ -304,7 +307,11 @@ def run(ctx):
         "for _cross_correlation_max/_all, _symmetrize_by_absmax, climate mutual_information, "
         "_test_pearson_correlation, _test_mutual_information, _quantile_bin_array, bincount_hist, "
         "rank_time_series; data level: T in 3..600, N in 2..6 (also N > T), tau_max 0..5, integer, "
-        "white, AR data with lagged / constant / duplicated / anti-correlated series; distinct = "
+        "white, AR data with lagged / constant / duplicated / anti-correlated series; round 2: pure-Python "
+        "_calculate_cc on small-integer arrays, integer data T 12..30 for the Gaussian estimators (past 1..2, "
+        "ity/mit), partial correlation N 2..4, tau_max up to 12, bins up to 10, float32 caller arrays, "
+        "power-of-two affine images 2^(+-20), 2^(+-40), 8-call histories on one object, T up to 90000 for the "
+        "binned estimator; distinct = "
         "distinct (suite, shape, data, parameters); non-trivial = at least two non-constant series")
     ctx.trusted = common.DEFAULT_TRUSTED + [
         "log, sqrt, digamma, numpy.corrcoef, numpy.linalg.inv/pinv, scipy.linalg.qr are library "
@@ -1490,6 +1497,26 @@ def oracle_knn(ctx, rng, nprng, quick):
             ctx.fail({"kind": "kernel", "kernel": "_get_nearest_neighbors"},
                      "neighbour counts differ from the brute-force KSG counts",
                      {"array": lst(a32), "k": k, "expected": [ex, ey, ez],
+                      "observed": [lst(kx), lst(ky), lst(kz)]})
+    # the public wrapper without standardisation, multi-dimensional X / Y / Z subspaces
+    # (the 1e-10 tie-breaking noise is below half an ulp of these float32 values)
+    for c in range(40 if quick else 300):
+        T = rng.randrange(6, 40)
+        dx, dy, dz = rng.choice([1, 2]), rng.choice([1, 2]), rng.choice([0, 1, 2])
+        dim = dx + dy + dz
+        k = rng.randrange(1, max(2, T // 2))
+        arr = np.array([nprng.permutation(4 * T)[:T] / 8.0 + nprng.permutation(T) / 4096.0
+                        for _ in range(dim)])
+        xyz = np.array([0] * dx + [1] * dy + [2] * dz)
+        np.random.seed(rng.randrange(2 ** 31))
+        kx, ky, kz = CouplingAnalysis.get_nearest_neighbors(arr.copy(), xyz, k, standardize=False)
+        ex, ey, ez = ref_knn_counts(arr.astype(np.float32).astype(float), dx, dy, k)
+        ctx.case(("knnpub", T, dx, dy, dz, k, arr.tobytes().hex()), True)
+        ctx.count(f"oracle:knn:public:dims={dx},{dy},{dz}")
+        if list(map(int, kx)) != ex or list(map(int, ky)) != ey or list(map(int, kz)) != ez:
+            ctx.fail({"kind": "coupling", "method": "get_nearest_neighbors", "check": "reference"},
+                     "get_nearest_neighbors(standardize=False) differs from the brute-force KSG counts",
+                     {"array": lst(arr), "xyz": lst(xyz), "k": k, "expected": [ex, ey, ez],
                       "observed": [lst(kx), lst(ky), lst(kz)]})
     # the estimator on top of the kernel: psi(k) + mean(psi(k_z) - psi(k_xz) - psi(k_yz))
     for c in range(10 if quick else 60):
